@@ -169,8 +169,79 @@ class Extract:
         return out
 
 
+PRIO_FUNCS = [("SyncState", "_change_path", "prioChangePath"), ("SyncState", "_change_oid", "prioChangeOid"),
+              ("SyncState", "update", "prioUpdate"), ("SyncState", "update_entry", "prioUpdateEntry"),
+              ("SyncState", "_update_kids", "prioUpdateKids"), ("SyncState", "_update_kids_of", "prioUpdateKidsOf"),
+              ("SyncState", "unconditionally_get_latest", "prioGetLatest"), ("SyncState", "split", "prioSplit"),
+              ("SyncEntry", "__setitem__", "prioSetItem"), ("SyncEntry", "punt", "prioPunt"),
+              ("SyncState", "finished", "prioFinished")]
+
+
+def prio_items(repo):
+    """for the functions of state.py through which a path (hence the application's class) or a priority changes: in source
+    order, every `return`, every call of `prioritize(`, of `_update_kids` / `_update_kids_of` / `_change_path`, every write
+    of a `.path` / `.priority` attribute, each with the chain of guards (`if` tests, loop headers) it sits under"""
+    with open(os.path.join(repo, "cloudsync/sync/state.py"), encoding="utf8") as f:
+        tree = ast.parse(f.read())
+    classes = {n.name: n for n in tree.body if isinstance(n, ast.ClassDef)}
+    out = {}
+    for cname, fname, lname in PRIO_FUNCS:
+        fn = None
+        for ch in classes.get(cname, ast.Module(body=[], type_ignores=[])).body:
+            if isinstance(ch, ast.FunctionDef) and ch.name == fname:
+                fn = ch
+        items = []
+        if fn is None:
+            items.append(("missing", []))
+            out[lname] = items
+            continue
+
+        def calls(node, guards):
+            for n in ast.walk(node):
+                if isinstance(n, ast.Call) and isinstance(n.func, ast.Attribute) and \
+                        n.func.attr in ("prioritize", "_update_kids", "_update_kids_of", "_change_path", "punt"):
+                    items.append((n.func.attr, list(guards)))
+
+        def visit(stmts, guards):
+            for st in stmts:
+                if isinstance(st, ast.Return):
+                    items.append(("return", list(guards)))
+                elif isinstance(st, (ast.Continue, ast.Break)):
+                    items.append(("continue" if isinstance(st, ast.Continue) else "break", list(guards)))
+                elif isinstance(st, ast.If):
+                    calls(st.test, guards)
+                    t = ast.unparse(st.test)
+                    visit(st.body, guards + [t])
+                    visit(st.orelse, guards + ["not (%s)" % t])
+                elif isinstance(st, (ast.For, ast.While)):
+                    hdr = "for %s in %s" % (ast.unparse(st.target), ast.unparse(st.iter)) if isinstance(st, ast.For) \
+                        else "while %s" % ast.unparse(st.test)
+                    visit(st.body, guards + [hdr])
+                    visit(st.orelse, guards)
+                elif isinstance(st, ast.Try):
+                    visit(st.body, guards + ["try"])
+                    for h in st.handlers:
+                        visit(h.body, guards + ["except"])
+                    visit(st.finalbody, guards + ["finally"])
+                elif isinstance(st, ast.With):
+                    visit(st.body, guards)
+                elif isinstance(st, (ast.FunctionDef, ast.ClassDef)):
+                    continue
+                else:
+                    if isinstance(st, (ast.Assign, ast.AugAssign)):
+                        tgts = st.targets if isinstance(st, ast.Assign) else [st.target]
+                        for tg in tgts:
+                            if isinstance(tg, ast.Attribute) and tg.attr in ("path", "_path", "priority", "_priority"):
+                                items.append(("write:" + tg.attr, list(guards)))
+                    calls(st, guards)
+        visit(fn.body, [])
+        out[lname] = items
+    return out
+
+
 def generate(repo=None):
     e = Extract(repo or REPO)
+    prio = prio_items(repo or REPO)
     one, do, sync = e.funnel("_sync_one_entry"), e.funnel("do"), e.funnel("sync")
     sites = e.sites()
     src = ["import Csverif.Model.SchedSites",
@@ -183,7 +254,10 @@ def generate(repo=None):
            "def syncClauses : List Clause := " + lean_list(sync),
            "def syncCalledPlain : Bool := " + lean_bool(e.sync_called_plain()),
            "def sites : List SchedSites.Site := [\n  " + ",\n  ".join(sites) + "]",
-           "def unmapped : Nat := %d" % len(e.unmapped),
+           "def unmapped : Nat := %d" % len(e.unmapped)] + [
+           "def %s : List PrioItem := [\n  %s]" % (lname, ",\n  ".join(
+               "⟨%s, %s⟩" % (lean_str(k), lean_list([lean_str(g) for g in gs])) for k, gs in prio[lname]))
+           for _c, _f, lname in PRIO_FUNCS] + [
            "end CS.Gen.PuntSites", ""]
     return "\n".join(src), e.unmapped
 
